@@ -3,7 +3,7 @@
    fixes/C23-*.patch; Spec.spec_step is Substrate's AuthoritySet (authorities.rs, fork-tree).
    `prefix` = the pinned code, only used by the ..._prefix_refuted witnesses. *)
 From Coq Require Import NArith List Bool Arith.
-From C23 Require Import Model Spec Enum Proofs Bounded Local Reach.
+From C23 Require Import Model Spec Enum Proofs Bounded Local Reach Chain Forced OnePerFork.
 Import ListNotations.
 Local Open Scope N_scope.
 
@@ -124,6 +124,140 @@ Theorem C23_abandoned_fork_changes_discarded : forall t s h,
          (g_setid s) (g_auths s) (g_changes s) (g_fin s), true).
 Proof. exact apply_scheduled_keeps. Qed.
 Print Assumptions C23_abandoned_fork_changes_discarded.
+
+(* --- refinement BY INDUCTION for a fragment (second round): scheduled changes on a single chain.
+   For the chain 0 <- 1 <- ... <- n of ANY length n, ANY set of scheduled-change announcements
+   (any announcing blocks, any delays, any number of them; sched_ok: an announcement is filed
+   under its own block) and EVERY history of ANY length (each event possible in the state
+   reached: the next block is imported, or an imported block above the last finalised one is
+   finalised - including finalisations that jump over several pending changes), the repaired Go
+   model and the Substrate specification agree after every event on success/failure
+   (errUnfinalizedAncestor = UnfinalizedAncestor), the current set id, the authorities of every
+   set id, the set id reported for every block number and the next authority change of every
+   live block.  No forced change is involved, so the guard of the known finding never applies.
+   `agree_run` is the statement form of Bounded.v, here without any bound. --- *)
+Theorem C23_refines_chain_scheduled : forall n sched evs, sched_ok sched ->
+  agree_run (chain n) sched [] [O] O ginit sinit evs.
+Proof. exact chain_refines. Qed.
+Print Assumptions C23_refines_chain_scheduled.
+
+(* the simulation invariant behind it, in every reachable state of such a history: both sides hold
+   the SAME path-shaped tree of pending changes, no forced change, equal set ids and authorities,
+   corresponding set-change tables with a non-decreasing sequence of last blocks *)
+Theorem C23_chain_invariant_step : forall n sched, sched_ok sched ->
+  forall imp fin imported g q e, inv n imp fin imported g q ->
+  In e (next_events (chain n) imported fin) ->
+  match spec_step (chain n) sched [] q e with
+  | None => is_rok (snd (go_step fixed (chain n) sched [] g e)) = false
+  | Some q' =>
+    let g' := fst (go_step fixed (chain n) sched [] g e) in
+    let imported' := match e with Import b => b :: imported | Finalise _ => imported end in
+    let fin' := match e with Import _ => fin | Finalise b => b end in
+    is_rok (snd (go_step fixed (chain n) sched [] g e)) = true /\
+    exists imp', inv n imp' fin' imported' g' q'
+  end.
+Proof. exact chain_step. Qed.
+Print Assumptions C23_chain_invariant_step.
+
+(* non-vacuity of the fragment: on the chain of 6 blocks with changes announced in blocks 1
+   (delay 1), 3 (delay 0) and 5 (delay 1), this history is made of possible events only and
+   enacts three changes; a finalisation that jumps over two pending changes (block 3 finalised
+   while the change of block 1 is due and block 3 announces the next one) fails on both sides *)
+Example C23_chain_nonvacuous :
+  let t := chain 6 in
+  let sched := [(1%nat, mkpc 1 1 5 0); (3%nat, mkpc 3 0 6 0); (5%nat, mkpc 5 1 7 0)] in
+  let evs := [Import 1; Import 2; Import 3; Finalise 2; Import 4; Finalise 4; Import 5; Import 6; Finalise 6] in
+  sched_ok sched /\
+  snd (run_go fixed t sched [] ginit evs) = [ROk; ROk; ROk; ROk; ROk; ROk; ROk; ROk; ROk] /\
+  g_setid (fst (run_go fixed t sched [] ginit evs)) = 3 /\
+  g_changes (fst (run_go fixed t sched [] ginit evs)) = [(0, 0); (1, 2); (2, 4); (3, 6)] /\
+  option_map s_changes (run_spec t sched [] sinit evs) = Some [(0, 2); (1, 4); (2, 6)] /\
+  snd (run_go fixed t sched [] ginit [Import 1; Import 2; Import 3; Finalise 3]) = [ROk; ROk; ROk; RErrSched] /\
+  run_spec t sched [] sinit [Import 1; Import 2; Import 3; Finalise 3] = None.
+Proof.
+  cbv zeta. split.
+  - intros b c H. cbn [cfind] in H.
+    destruct (Nat.eqb 1 b) eqn:E1; [injection H as <-; apply Nat.eqb_eq in E1; exact E1|].
+    destruct (Nat.eqb 3 b) eqn:E3; [injection H as <-; apply Nat.eqb_eq in E3; exact E3|].
+    destruct (Nat.eqb 5 b) eqn:E5; [injection H as <-; apply Nat.eqb_eq in E5; exact E5|].
+    discriminate.
+  - vm_compute. repeat split; reflexivity.
+Qed.
+
+(* --- second inductive fragment (second round): forced changes on ARBITRARY block trees, imports
+   only.  For EVERY well-formed block tree (any size, any forks), ANY set of forced-change
+   announcements (any blocks, delays, best-finalized numbers; forced_ok: filed under their own
+   block) and EVERY history of imports of ANY length (no finalisation, no scheduled change), the
+   repaired Go model and the Substrate specification agree after every event on success/failure
+   (a second forced change on a fork that already has one is refused by both), the current set id,
+   the authorities of every set id, the set id per block number (whenever Substrate's change
+   vector is non-decreasing) and the next authority change of every imported block.  The proof
+   keeps both pending lists EQUAL and ordered by (effective number, announcing number): Go's
+   sort.Search insertion = binary_search_by_key, first applicable entry = take_while/filter,
+   first entry on the chain of the best block = minimum. --- *)
+Theorem C23_refines_forced_imports : forall t forced evs, wf t = true -> forced_ok forced ->
+  Forall is_import evs -> agree_run t [] forced [O] O ginit sinit evs.
+Proof. exact forced_refines. Qed.
+Print Assumptions C23_refines_forced_imports.
+
+(* non-vacuity: two forks of block 1, a forced change on each (blocks 2 and 3, delay 1); importing
+   block 4 (child of 2, number 3) enacts the change of ITS fork and clears the other; a second
+   forced change on a fork that already has one is refused on both sides *)
+Example C23_forced_nonvacuous :
+  let t := [O; 1%nat; 1%nat; 2%nat; 3%nat] in
+  let forced := [(2%nat, mkpc 2 1 5 0); (3%nat, mkpc 3 1 6 1)] in
+  let evs := [Import 1; Import 2; Import 3; Import 4; Import 5] in
+  wf t = true /\ Forall is_import evs /\
+  snd (run_go fixed t [] forced ginit evs) = [ROk; ROk; ROk; ROk; ROk] /\
+  map pc_blk (g_forced (fst (run_go fixed t [] forced ginit [Import 1; Import 2; Import 3]))) = [3%nat; 2%nat] /\
+  g_setid (fst (run_go fixed t [] forced ginit evs)) = 1 /\
+  g_auths (fst (run_go fixed t [] forced ginit evs)) = [(0, genesis_auth); (1, 5)] /\
+  option_map s_setid (run_spec t [] forced sinit evs) = Some 1 /\
+  snd (run_go fixed t [] [(2%nat, mkpc 2 3 5 0); (4%nat, mkpc 4 0 6 0)] ginit [Import 1; Import 2; Import 4])
+    = [ROk; ROk; RErrDigest] /\
+  run_spec t [] [(2%nat, mkpc 2 3 5 0); (4%nat, mkpc 4 0 6 0)] sinit [Import 1; Import 2; Import 4] = None.
+Proof. cbv zeta. split; [reflexivity|]. split; [repeat constructor|]. vm_compute. repeat split; reflexivity. Qed.
+
+(* --- "at most one forced change is pending per fork" and "changes on abandoned forks are
+   discarded" (for forced changes) as INVARIANTS OF EVERY REACHABLE STATE (second round): for every
+   well-formed tree, every set of scheduled and forced announcements and every history of possible
+   events of any length (`reach`: genesis, then events from Enum.next_events), two pending forced
+   changes are never on the same fork (neither announcing block is an ancestor of, or equal to, the
+   other's), and every pending forced change was announced by an imported block that descends from
+   (or is) the last finalised block. --- *)
+Theorem C23_one_forced_per_fork_history : forall t sched forced imported fin g,
+  wf t = true -> forced_ok forced -> reach t sched forced imported fin g ->
+  forall x y, In x (g_forced g) -> In y (g_forced g) -> is_anc t (pc_blk x) (pc_blk y) = true -> x = y.
+Proof. exact one_forced_per_fork_reachable. Qed.
+Print Assumptions C23_one_forced_per_fork_history.
+
+Theorem C23_pending_forced_on_live_forks : forall t sched forced imported fin g,
+  wf t = true -> forced_ok forced -> reach t sched forced imported fin g ->
+  g_fin g = fin /\
+  forall x, In x (g_forced g) -> In (pc_blk x) imported /\ is_anc t fin (pc_blk x) = true.
+Proof.
+  intros t sched forced imported fin g W Hok R. destruct (reach_pinv _ _ _ _ _ _ W Hok R) as [_ Pi _ Pl Pf].
+  split; [exact Pf|]. intros x Hx. split; [apply Pi | apply Pl]; exact Hx.
+Qed.
+Print Assumptions C23_pending_forced_on_live_forks.
+
+(* non-vacuity: a reachable state with two pending forced changes on two forks *)
+Example C23_one_per_fork_nonvacuous :
+  let t := [O; 1%nat; 1%nat] in
+  let forced := [(2%nat, mkpc 2 3 5 0); (3%nat, mkpc 3 3 6 0)] in
+  exists g, reach t [] forced [3%nat; 2%nat; 1%nat; O] O g /\ map pc_blk (g_forced g) = [3%nat; 2%nat].
+Proof.
+  cbv zeta.
+  set (t := [O; 1%nat; 1%nat]). set (forced := [(2%nat, mkpc 2 3 5 0); (3%nat, mkpc 3 3 6 0)]).
+  pose proof (reach_init t [] forced) as R0.
+  assert (H1 : In (Import 1) (next_events t [O] O)) by (vm_compute; auto).
+  pose proof (reach_step t [] forced _ _ _ (Import 1) R0 H1) as R1.
+  assert (H2 : In (Import 2) (next_events t [1%nat; O] O)) by (vm_compute; auto).
+  pose proof (reach_step t [] forced _ _ _ (Import 2) R1 H2) as R2.
+  assert (H3 : In (Import 3) (next_events t [2%nat; 1%nat; O] O)) by (vm_compute; auto).
+  pose proof (reach_step t [] forced _ _ _ (Import 3) R2 H3) as R3.
+  eexists. split; [exact R3|]. vm_compute. reflexivity.
+Qed.
 
 (* --- refinement, exhaustive small scope.  For EVERY well-formed block tree with at most 3
    blocks besides genesis, every assignment of at most 2 change announcements (scheduled or
